@@ -1,6 +1,7 @@
 package checks
 
 import (
+	"context"
 	"errors"
 	"fmt"
 	"reflect"
@@ -75,6 +76,8 @@ func c12Errors() []outcome {
 		{0, errors.Join(errE3, &ptrErr{3}), "join(E3,ptrErr)"},
 		{0, isE1{}, "isE1"},
 		{0, fmt.Errorf("m: %w %w", errE3, errE2), "multi%w(E3,E2)"},
+		{0, fmt.Errorf("call: %w", context.DeadlineExceeded), "wrap(DeadlineExceeded)"},
+		{0, fmt.Errorf("call: %w", context.Canceled), "wrap(Canceled)"},
 	}
 }
 
@@ -260,7 +263,7 @@ func c12CondSets() []condSet {
 }
 
 func checkC12(rep *vk.Report) {
-	rep.Rule = "exhaustive grid: every subset and order of HandleErrors(E1)/HandleErrorTypes(sample in all four forms)/HandleResult(7)/HandleIf(pred) (plus duplicates) x 64 outcomes (results 0,7,9,5 x nil, sentinels, wrapped, doubly wrapped, joined, multi-%w, value- and pointer-receiver typed, wrapped/joined typed, custom Is) x {fallback applied?, retry re-invoked?, breaker failure count through an execution and through RecordResult/RecordError}; the same for AbortOn*/CancelOn* subsets. Plus result types other than int (pointer, struct holding pointers, slice, map, interface holding a pointer): HandleResult/AbortOnResult must match separately allocated deep-equal values. Plus random error trees (wrap/join/multi-%w to depth 4) x random condition lists (5 000 quick, 1 000 000 thorough). Expected value from the statement's rule evaluated with errors.Is, an own type walk, DeepEqual for outcomes without error, and the predicate. Non-trivial: the outcome carries an error or a handled result and at least one condition is configured; distinct by (policy kind, condition list, outcome)."
+	rep.Rule = "exhaustive grid: every subset and order of HandleErrors(E1)/HandleErrorTypes(sample in all four forms)/HandleResult(7)/HandleIf(pred) (plus duplicates) x 72 outcomes (results 0,7,9,5 x nil, sentinels, wrapped, doubly wrapped, joined, multi-%w, value- and pointer-receiver typed, wrapped/joined typed, custom Is) x {fallback applied?, retry re-invoked?, breaker failure count through an execution and through RecordResult/RecordError}; the same for AbortOn*/CancelOn* subsets. Plus result types other than int (pointer, struct holding pointers, slice, map, interface holding a pointer): HandleResult/AbortOnResult must match separately allocated deep-equal values. Plus random error trees (wrap/join/multi-%w to depth 4) x random condition lists (5 000 quick, 1 000 000 thorough). Expected value from the statement's rule evaluated with errors.Is, an own type walk, DeepEqual for outcomes without error, and the predicate. Non-trivial: the outcome carries an error or a handled result and at least one condition is configured; distinct by (policy kind, condition list, outcome)."
 	rep.Assumptions = []string{
 		"A6: AbortOnResult/CancelOnResult are not judged for outcomes that also carry an error",
 		"A10: typed errors are produced in canonical form (value-receiver types by value, pointer-receiver types by pointer); all four sample forms are registered",
